@@ -57,7 +57,7 @@ class C05(Prop):
     id = "C05"
     title = "Energy store operations are atomic under every thread interleaving"
     fixed_prefix = 0
-    quick_budget = 700
+    quick_budget = 1000
     thorough_budget = 20000
     quick_deadline_s = 150
     assumptions = [
